@@ -17,6 +17,7 @@ EXPLANATION = (
     "= 0, accept+block+release[blocked] = 0, classchange moves one unit within a node, block keeps the node total), all trackers keep the 8-method "
     "interface call-compatible, timestamp() appends only on a state change, and both recording loops do event -> timestamp -> clock advance. By "
     "induction over events the tracked counters equal the list lengths of C01. state_probabilities arithmetic is not decided.")
+EXPLANATION += (" Added later: " "NodePopulationSubset keeps one entry per observed node in the user's order (updates address observed_nodes.index(node), hash_state is the vector itself); every sojourn in state_probabilities ends at a history date or at the window's end itself.")
 RULE = "instances = transition sites in node.py x paths x views, and handler paths of each tracker class; effects compared as normalised (guard, key, delta) sets"
 
 TR = "self.simulation.statetracker"
